@@ -74,7 +74,7 @@ func (p *printer) tok(t string) int { return p.tokx(t, false) }
 
 func (p *printer) tokx(t string, noBreakBefore bool) int {
 	if p.gap > 0 {
-		if p.lay.CommentAtGap == p.gap && p.lay.Comment != "" {
+		if p.lay.CommentAtGap == p.gap && p.lay.Comment != "" && !(noBreakBefore && countLineEnds(p.lay.Comment) > 0) {
 			if !p.atLineStart {
 				p.b.WriteString(p.blank())
 			}
